@@ -9,12 +9,13 @@ NOT_APPLICABLE = {
     "C03": "statement about ~25 concrete proof files x a build matrix: no symbolic input to quantify over and the real hashes cannot be encoded; the symbolic fragments it rests on are claimed under C04/C05/C09/C13/C14 (DESIGN.md C03)",
     "C19": "regex/serde_json/string parsing in proof_parser and cli (which do not even build offline here): text-processing loops behind library internals are out of reach of bounded symbolic execution; nothing arithmetic for the SMT route (DESIGN.md C19)",
 }
+NOT_READY = {"C01", "C02", "C17"}   # obligations still being built (E2s); remove when smt/run.py serves them
 PENDING = "check not built yet in this session (claimed in DESIGN.md; will move to checks when its harness is committed)"
 
 def main():
     checks = []
     for pid in ALL:
-        if pid not in props.PROPS:
+        if pid not in props.PROPS or pid in NOT_READY:
             continue
         P = props.PROPS[pid]
         engines = sorted({o["engine"] for o in P["obligations"]})
@@ -35,7 +36,7 @@ def main():
         })
     na = []
     for pid in ALL:
-        if pid in props.PROPS:
+        if pid in props.PROPS and pid not in NOT_READY:
             continue
         na.append({"property_id": pid, "reason": NOT_APPLICABLE.get(pid, PENDING)})
     m = {
